@@ -6,6 +6,7 @@ CONSTANTS
   Routes = {}
   Offs = {0, 1}
   CondKinds = {"Cond", "CondId"}
+  IidModes = {FALSE}
 INIT Init
 NEXT Next
 CHECK_DEADLOCK FALSE
